@@ -245,6 +245,32 @@ pub fn same(exp: &Value, act: &Value, zlax: bool) -> bool {
     }
 }
 
+/// The same value with the members of every object inserted in the opposite order (a different value only when
+/// the crate under test builds serde_json with an order-preserving map).
+pub fn reverse_members(v: &Value) -> Value {
+    match v {
+        Value::Array(a) => Value::Array(a.iter().map(reverse_members).collect()),
+        Value::Object(o) => {
+            let mut m = serde_json::Map::new();
+            let members: Vec<(&String, &Value)> = o.iter().collect();
+            for (k, x) in members.into_iter().rev() {
+                m.insert(k.clone(), reverse_members(x));
+            }
+            Value::Object(m)
+        }
+        _ => v.clone(),
+    }
+}
+
+/// Does the value contain an object with two or more members?
+pub fn has_multi(v: &Value) -> bool {
+    match v {
+        Value::Array(a) => a.iter().any(has_multi),
+        Value::Object(o) => o.len() > 1 || o.values().any(has_multi),
+        _ => false,
+    }
+}
+
 pub fn selftest() -> Result<(), String> {
     let texts = [
         "null", "true", "false", "0", "-0.0", "0.0", "1", "-1", "1.5", "1e0", "1E2", "-0", "5e-324", "1.7976931348623157e308",
